@@ -35,12 +35,12 @@ class _Base(ac.Conv):
         if isinstance(op, arith.IndexCastOp):
             return ["pure", self.var(op.result), ["cast"], [self.use(op.input)]]
         if isinstance(op, func.CallOp):
-            from snaxc.inference.helpers import has_accfg_effects
+            from accfg_common import call_has_effects
             self.ncall += 1
             self.calltag[op] = self.ncall
             if op.operands or op.results:
                 raise Unsupported("call with operands")
-            return ["call", self.ncall, bool(has_accfg_effects(op))]
+            return ["call", self.ncall, call_has_effects(op)]
         return None
 
 
